@@ -968,10 +968,13 @@ func r14CallSites(c *RuleCtx) {
 				okOne := false
 				switch role {
 				case "numDocs", "storedIndexOffset", "sectionsIndexOffset":
-					okOne = desc == "SegmentBase."+role || desc == "mergeToWriter."+role
+					// (a field or a result of that very name — of the segment, of mergeToWriter, or of the
+					// object the merge's results were folded into)
+					okOne = desc == "SegmentBase."+role || desc == "mergeToWriter."+role || (strings.HasSuffix(desc, "."+role) && !strings.HasSuffix(desc, "()"))
 				case "fieldsIndexOffset":
 					// in the sections format the fields index offset points at the sections index
-					okOne = desc == "SegmentBase.fieldsIndexOffset" || desc == "mergeToWriter.sectionsIndexOffset" || desc == "SegmentBase.sectionsIndexOffset"
+					okOne = desc == "SegmentBase.fieldsIndexOffset" || desc == "mergeToWriter.sectionsIndexOffset" || desc == "SegmentBase.sectionsIndexOffset" ||
+						((strings.HasSuffix(desc, ".sectionsIndexOffset") || strings.HasSuffix(desc, ".fieldsIndexOffset")) && !strings.HasSuffix(desc, "()"))
 				case "docValueOffset":
 					okOne = desc == "SegmentBase.docValueOffset" || desc == "const 0"
 				case "chunkMode":
